@@ -107,6 +107,14 @@ def _run(prop, tier, replay, text, quick_frac):
         rep.add_judged(agg)
     if prop == 'C01':
         lit_stage(rep, 'C01', ('exlit', 'attr', 'docref', 'annot', 'anndef', 'badtype'), quick=(tier == 'quick'))
+        # default literals (StoneDefaultsMC!CompileLit): a field default compiles iff the documented rule accepts it
+        res = run_shards('StoneDefaultsMC',
+                         lambda s: dict(spec='Spec', constants={'Mode': '"defaults"', 'Shard': 0, 'NShards': 1, 'EmitVectors': True},
+                                        invariants=['DefaultsValid'], constraints=['Emit']),
+                         [0], 'defcheck.DefaultsJudge', {'prop': 'C01'}, tlc_kwargs={'timeout': 3000})
+        agg = merge(res)
+        rep.add_tlc('StoneDefaultsMC/defaults', agg, {'Mode': 'defaults'})
+        rep.add_judged(agg)
     if prop == 'C11':
         # layout: comments, blank lines, trailing whitespace/comments, broken parenthesised lists.  StoneLex proves
         # (TLC, LayoutInvariance) that the line machine OpLex ignores them; here the real Lexer is bound to OpLex.
